@@ -73,7 +73,7 @@ func zzSecretData(s *kube.Store, ns, name string) (map[string][]byte, bool) {
 // written over another owner's secret; identical data is not rewritten.
 //
 //gosym:harness
-//gosym:cover published filtered-out no-secret-wanted foreign-secret noop
+//gosym:cover published filtered-out no-secret-wanted foreign-secret noop identical-data
 func HarnessC09Publish() {
 	s := kube.New()
 	s.Register(&corev1.Secret{}, &corev1.SecretList{}, "", "Secret")
@@ -108,9 +108,11 @@ func HarnessC09Publish() {
 	zz.Assume(foreign != "")
 	state := zz.Choose("secret.state", zzSecStates)
 	var preData map[string][]byte
+	identical := false
 	switch zz.Choose("secret.data", 3) {
 	case 0: // empty
 	case 1: // exactly what will be published (possibly)
+		identical = true
 		preData = map[string][]byte{}
 		for i, k := range keys {
 			in := len(filter) == 0
@@ -200,6 +202,11 @@ func HarnessC09Publish() {
 	if !published {
 		zz.Cover("noop")
 		zz.Assert("unpublished-means-no-effective-write", effective == 0)
+	}
+	if identical && state == zzSecOurs {
+		// the XR's own secret already holds exactly the allowed produced keys
+		zz.Cover("identical-data")
+		zz.Assert("identical-data-never-rewritten", !published && effective == 0)
 	}
 	zz.Observe("published", published, len(post))
 }
